@@ -868,7 +868,7 @@ class Group(System):
 
                 if isout:
                     graph.add_edge(comp, vname)
-                    if comp in implicit_comps:
+                    if comp in implicit_comps and flags & CONTINUOUS:
                         graph.add_edge(vname, comp)
                 else:
                     graph.add_edge(vname, comp)
